@@ -214,6 +214,45 @@ pub fn run(ctx: &'static Ctx) {
             }
         }
     });
+    // the same sites with every name form (1, 2, 3, 10 segments, relative and rooted) and with a child that writes a
+    // 64-bit constant straight to the sink; body sizes around every width threshold and every size up to 300
+    let vpads: Vec<usize> = (0..=300usize).chain(4060..=4110).chain((1 << 20) - 40..=(1 << 20)).collect();
+    let vwork: Vec<(usize, usize, usize, bool)> = (0..SIZED_KINDS.len())
+        .flat_map(|k| (0..8usize).flat_map(move |nv| [false, true].into_iter().map(move |d| (k, nv, d))))
+        .filter(|(k, nv, d)| (*nv != 0 || *d) && (*nv == 0 || crate::amlobj::is_named(*k)) && !matches!(SIZED_KINDS[*k], "VarPackageTerm" | "BufferTerm" | "BufferData"))
+        .flat_map(|(k, nv, d)| vpads.iter().map(move |p| (k, *p, nv, d)))
+        .collect();
+    let vbound = AtomicU64::new(0);
+    vwork.par_iter().for_each(|(k, pad, nv, d)| {
+        if SIZED_KINDS[*k] == "Field" && (*pad > 5000 || *d) {
+            return;
+        }
+        let rep = || json!({"family":"pkglen-site","kind":SIZED_KINDS[*k],"pad":pad,"name_variant":nv,"direct_child":d});
+        let b = match catch(|| crate::amlobj::sized_v(*k, *pad, *nv, *d)) {
+            Ok(b) => b,
+            Err(m) => {
+                ctx.violation_sized(&format!("pkglen:site:{}:panic", SIZED_KINDS[*k]), *pad as u64, || format!("{} (name form {}, direct child {}) with pad {} panicked: {}", SIZED_KINDS[*k], nv, d, pad, m), rep);
+                return;
+            }
+        };
+        let ol = opcode_len(*k);
+        let rest = b.len() - ol;
+        vbound.fetch_add(1, Ordering::Relaxed);
+        match pkg_decode(&b[ol..]) {
+            Some((v, w, fmt)) if fmt && v == rest && Some(w) == pkg_width_inclusive(rest - w) => {}
+            other => {
+                ctx.violation_sized(
+                    &format!("pkglen:site:{}", SIZED_KINDS[*k]),
+                    *pad as u64,
+                    || format!("{} (name form {:?}, direct 64-bit child {}) with pad {}: {} bytes follow the opcode but its PkgLength {} decodes to {:?}", SIZED_KINDS[*k], crate::amlobj::NAME_VARIANTS[*nv], d, pad, rest, hex(&b[ol..(ol + 4).min(b.len())]), other),
+                    rep,
+                );
+            }
+        }
+    });
+    ctx.tr(vbound.load(Ordering::Relaxed));
+    ctx.st(vbound.load(Ordering::Relaxed));
+    ctx.engine("E4.call-site-variants", json!({"name_forms": crate::amlobj::NAME_VARIANTS, "direct_64bit_child": [false, true], "body_pads": "0..=300, 4060..=4110, 2^20-40..=2^20", "objects": vbound.load(Ordering::Relaxed)}));
     ctx.tr(bound.load(Ordering::Relaxed));
     ctx.st(bound.load(Ordering::Relaxed));
     ctx.engine("E4.call-site-binding", json!({"kinds": SIZED_KINDS, "body_pads": "0..=4200 and 2^20-16..=2^20", "objects": bound.load(Ordering::Relaxed)}));
